@@ -99,8 +99,11 @@ def _parse(out, harnesses):
             elif any("unwinding assertion" in f for f in r.failed_checks) and \
                     all("unwinding assertion" in f for f in r.failed_checks):
                 r.status = "unwind"
-            else:
+            elif r.failed_checks or re.search(r"\*\* [1-9]\d* of \d+ failed", txt):
                 r.status = "failed"
+            else:
+                # FAILED without a single failed check: CBMC died (out of memory / killed): never a violation
+                r.status = "error"
         elif re.search(r"timed out|TIMEOUT", txt, re.I):
             r.status = "timeout"
         else:
@@ -112,7 +115,7 @@ def run_harnesses(scratch, src, harnesses, jobs=None, global_timeout=None, logna
     """One cargo-kani invocation for all harnesses. Returns ({name: Result}, raw_output, wall)."""
     if not harnesses:
         return {}, "", 0.0
-    jobs = jobs or min(len(harnesses), int(os.environ.get("VERIF_JOBS", "12")))
+    jobs = jobs or min(len(harnesses), int(os.environ.get("VERIF_JOBS", "6")))
     tmax = max(h.timeout for h in harnesses)
     cmd = ["cargo", "kani", "--lib", "-Z", "stubbing", "-Z", "unstable-options",
            "--harness-timeout", "%ds" % tmax, "--output-format", "terse",
